@@ -19,7 +19,7 @@ RULE = ("Programs: every body of AST size <= S (core grammar + probe leaves) x {
         "full set; programs above the size stated in bounds.full_subsets_size: every single point and the full set) x repetition {1,3} x mode {trickery, referents} the program is re-run with extract() at exactly those points "
         "and must produce the same event log, yielded values and outcome as the unobserved twin; consecutive extractions of the "
         "unchanged target must compare equal; afterwards weakrefs to every manager, the target and its frame must be dead and "
-        "the same for seven hand-written programs: four whose frame holds a manager with a staticmethod __exit__ (trickery analysis fails and falls back) and three whose `as` targets cannot be described (the analysis gives up on the target on every extraction); refcounts of value-stack objects unchanged by 4 extract-and-drop rounds. Chains: same for every chain spec of length "
+        "the same for nine hand-written programs: four whose frame holds a manager with a staticmethod __exit__ (trickery analysis fails and falls back) three whose `as` targets cannot be described (the analysis gives up on the target on every extraction), and two with a class body / an exec with its own locals mapping between the target frame and the probe; refcounts of value-stack objects unchanged by 4 extract-and-drop rounds. Chains: same for every chain spec of length "
         "<= N and every subset of its positions. A worker dying on a signal is a violation. evaluations = observed re-runs; "
         "distinct_nontrivial = distinct (program, kind, path) / chain specs with >= 1 observation point.")
 ASSUMPTIONS = ["n > 6 observation points: subsets of size <= 2 plus the full set (stated cap, fully enumerated below it)"]
@@ -283,6 +283,10 @@ ODD_PROGRAMS = [
     ("gen", "def prog(rt):\n    z = None\n    slots = [None, None, None]\n    i = 0\n    with M(rt, 1) as slots[i + 1]:\n        yield 'body'\n        with M(rt, 2) as slots[i + 2]:\n            yield 'inner'\n    yield 'after'\n"),
     ("coro", "async def prog(rt):\n    z = None\n    slots = [None, None, None]\n    i = 0\n    async with AM(rt, 1) as slots[i + 1]:\n        await trap('body')\n    await trap('after')\n"),
     ("func", "def prog(rt):\n    z = None\n    slots = {}\n    i = 0\n    with M(rt, 1) as slots[str(i) + 'x']:\n        rt.probe('body')\n    rt.probe('after')\n"),
+    # frames whose f_locals IS their live namespace (class body, exec with a separate locals mapping) between the target
+    # and the probe: what the code there computes after the extraction must not change
+    ("func", "def prog(rt):\n    z = None\n    try:\n        class K:\n            width = 3\n            with M(rt, 1) as v1:\n                rt.probe('body')\n            area = width * 2\n        rt.log.append(('area', K.area))\n    except NameError as ex:\n        rt.log.append(('nameerror', str(ex)))\n    rt.probe('after')\n"),
+    ("gen", "def prog(rt):\n    z = None\n    ns = {}\n    try:\n        with M(rt, 1) as v1:\n            exec('a = 5\\nrt.probe(\"body\")\\nb = a + 1\\n', {'rt': rt}, ns)\n            yield 'body'\n        rt.log.append(('ns', sorted(ns.items())))\n    except NameError as ex:\n        rt.log.append(('nameerror', str(ex)))\n    yield 'after'\n"),
 ]
 
 
